@@ -82,7 +82,9 @@ class Table:
         shown = x
         if hasattr(type(x), "__next__"):
             try:
-                shown = ("iter", list(x))
+                # consumed the way `run` consumes it (a plain loop): list(x) would also ask for a length hint,
+                # which reaches a student __len__ that may raise
+                shown = ("iter", [y for y in x])
             except Exception as e:       # noqa
                 shown = ("iter-raises", type(e).__name__)
         self.objs.append((x, shown))
